@@ -3,6 +3,7 @@ package props
 import (
 	"encoding/json"
 	"fmt"
+	"github.com/cybergarage/go-redis/vrt"
 	"sort"
 	"strings"
 	"time"
@@ -251,6 +252,7 @@ func c17Run(c *fw.Ctx) {
 			}
 		}
 	}
+	c17Concurrent(c)
 	// through the server: KEYS and SCAN MATCH against a store holding all keys of length <= 2
 	var small []string
 	eachString(alpha, 2, func(b []byte) { small = append(small, string(b)) })
@@ -291,6 +293,21 @@ func c17Replay(raw json.RawMessage) (string, bool, error) {
 		eachString(alpha, 2, func(b []byte) { small = append(small, string(b)) })
 		clause, detail := c17Server(cs.Pattern, small)
 		return fmt.Sprintf("pattern=%q clause=%q %s", cs.Pattern, clause, detail), clause != "", nil
+	}
+	if cs.Kind == "concurrent" {
+		var pc c17Pair
+		if err := json.Unmarshal(raw, &pc); err != nil {
+			return "", false, err
+		}
+		var keys []string
+		eachString([]byte{'a', 'b', '*', '?', '.', '+', '(', '|', '$'}, 2, func(b []byte) { keys = append(keys, string(b)) })
+		run := c17PairExplorer(pc, 0, keys).New()
+		r := vrt.Run(vrt.Options{Choices: pc.Choices, FineLoops: true}, run.Body, run.AtQuiet)
+		if r.Diverged != "" {
+			return "", false, fmt.Errorf("schedule does not replay: %s", r.Diverged)
+		}
+		v := run.Verdict(r)
+		return fmt.Sprintf("patterns=%q schedule=%v clause=%q %s", pc.P, pc.Choices, v.Clause, v.Detail), v.Clause != "", nil
 	}
 	if cs.Kind == "history" {
 		var keys3 []string
